@@ -76,6 +76,9 @@ thread_local! {
     static TID: Cell<usize> = const { Cell::new(NOT_WORKER) };
     static OPSTEPS: Cell<u32> = const { Cell::new(0) };
     static OPLIMIT: Cell<u32> = const { Cell::new(u32::MAX) };
+    static OPPROP: Cell<u8> = const { Cell::new(0) };
+    static OPSOFT: Cell<bool> = const { Cell::new(false) };
+    static AUTO_SOLO: Cell<bool> = const { Cell::new(false) };
     static FRNG: Cell<u64> = const { Cell::new(0x1234_5678_9ABC_DEF1) };
     static LOCAL_HITS: [Cell<u32>; NSITES] = const { [const { Cell::new(0) }; NSITES] };
     /// Bit mask of "path marker" sites seen since the last `take_marks`.
@@ -118,13 +121,33 @@ pub fn seed_thread_rng(seed: u64) {
 /// reported through `crate::viol` under `prop` and the process is terminated (the call may never
 /// return).
 pub fn op_begin(limit: u32) {
+    op_begin_ext(limit, 0, false);
+}
+
+/// `prop`: which property a budget violation of this call belongs to (8 = a read, which must be
+/// wait-free under every schedule; 9 = a write / guard operation, which must finish when running
+/// alone; 0 = the workload's default). `break_livelock`: writers are only lock-free, so two of them
+/// can keep each other busy for ever under a perfectly symmetric schedule (observed: two writers of
+/// the fallback-only strategy helping each other in lock-step). That is no violation of any
+/// property here; after `SOFT_LIMIT` steps the scheduler therefore lets the caller run alone – if
+/// it still does not finish within the budget, it violates C09.
+pub fn op_begin_ext(limit: u32, prop: u8, break_livelock: bool) {
     OPSTEPS.with(|c| c.set(0));
     OPLIMIT.with(|c| c.set(limit));
+    OPPROP.with(|c| c.set(prop));
+    OPSOFT.with(|c| c.set(break_livelock));
 }
+
+pub const SOFT_LIMIT: u32 = 4000;
+pub static LIVELOCK_BREAKS: AtomicU64 = AtomicU64::new(0);
 
 /// Steps the calling thread made since `op_begin`.
 pub fn op_steps() -> u32 {
     OPLIMIT.with(|c| c.set(u32::MAX));
+    OPSOFT.with(|c| c.set(false));
+    if AUTO_SOLO.with(|c| c.replace(false)) {
+        end_solo();
+    }
     OPSTEPS.with(|c| c.get())
 }
 
@@ -198,6 +221,15 @@ pub fn step(site: u16) {
     if n > OPLIMIT.with(|c| c.get()) {
         budget_exceeded(site, n);
     }
+    if n == SOFT_LIMIT && m == 2 && OPSOFT.with(|c| c.get()) && tid() != NOT_WORKER {
+        // symmetry breaker for lock-free writers (see `op_begin_ext`)
+        let inn = unsafe { inner() };
+        if inn.solo == NOT_WORKER {
+            inn.solo = tid();
+            AUTO_SOLO.with(|c| c.set(true));
+            LIVELOCK_BREAKS.fetch_add(1, Relaxed);
+        }
+    }
     if site == arc_swap::verif::Site::PAYALL_BEGIN as u16 {
         crate::runner::payall_mark(true);
     } else if site == arc_swap::verif::Site::PAYALL_END as u16 {
@@ -215,7 +247,8 @@ pub fn step(site: u16) {
 #[cold]
 fn budget_exceeded(site: u16, n: u32) {
     OPLIMIT.with(|c| c.set(u32::MAX));
-    let prop = match BUDGET_PROP.load(Relaxed) {
+    let own = OPPROP.with(|c| c.get());
+    let prop = match if own != 0 { own } else { BUDGET_PROP.load(Relaxed) } {
         8 => "C08",
         9 => "C09",
         13 => "C13",
